@@ -1036,11 +1036,265 @@ class Misc(Stream):
         return case
 
 
+# ----------------------------------------------------------------------------------------------
+# stream: the same values through the topology API (model-element property assignment)
+# ----------------------------------------------------------------------------------------------
+
+FIX = {'NodeSliver': 'fixture-node', 'ComponentSliver': 'fixture-comp', 'NetworkServiceSliver': 'fixture-svc',
+       'InterfaceSliver': 'fixture-comp-p1'}
+
+
+class Topo(Stream):
+    name = 'topo'
+    header = HEADER
+    case_type = 'topo'
+    check_fn = 'check_topo'
+    shard = 150
+    rule = ('one API call on a fresh experiment topology (node + SmartNIC component + L2Bridge service): add_node / '
+            'add_component / add_network_service with a candidate name; .name = and rename() on node, component, service, '
+            'interface; update_labels / labels = / set_property(labels); boot_script, tags, user_data through set_properties; '
+            'distinct by case')
+
+    def fixture(self):
+        from fim.user.topology import ExperimentTopology
+        from fim.user import ServiceType, ComponentModelType
+        t = ExperimentTopology()
+        n = t.add_node(name=FIX['NodeSliver'], site='S1')
+        c = n.add_component(name=FIX['ComponentSliver'], model_type=ComponentModelType.SmartNIC_ConnectX_6)
+        i = c.interfaces[FIX['InterfaceSliver']]
+        s = t.add_network_service(name=FIX['NetworkServiceSliver'], nstype=ServiceType.L2Bridge, interfaces=[i])
+        return t, {'NodeSliver': n, 'ComponentSliver': c, 'NetworkServiceSliver': s, 'InterfaceSliver': i}
+
+    def gen(self, rng, tier):
+        n = 400 if tier == 'quick' else 6000
+        lab = LabelsStream()
+        out = []
+        for _ in range(n):
+            k = rng.choice(['add', 'set', 'rename', 'set', 'rename', 'update_labels', 'update_labels', 'labels_assign', 'boot', 'tags',
+                            'user_data'])
+            if k == 'add':
+                cls = rng.choice(['NodeSliver', 'ComponentSliver', 'NetworkServiceSliver'])
+                out.append({'kind': 'add', 'cls': cls, 'v': gen_name(cls, rng)})
+            elif k in ('set', 'rename'):
+                cls = rng.choice(list(FIX))
+                out.append({'kind': k, 'cls': cls, 'v': gen_name(cls, rng)})
+            elif k == 'update_labels':
+                base = []
+                for f in rng.sample(ALL_FIELDS, rng.choice([0, 0, 1, 2])):
+                    for _try in range(20):
+                        v = member(f, rng)
+                        if documented(f, v):
+                            base.append([f, v if rng.random() < 0.7 else [v]])
+                            break
+                kws = [kv for kv in lab.gen_kws(rng) if kv[1] is not None]
+                out.append({'kind': k, 'base': base, 'kws': kws})
+            elif k == 'labels_assign':
+                out.append({'kind': k, 'base': [], 'kws': [kv for kv in lab.gen_kws(rng) if kv[1] is not None],
+                            'how': rng.choice(['attr', 'set_property', 'set_properties'])})
+            elif k == 'boot':
+                n_ = rng.choice([1, 100, 1022, 1023, 1024, 1025])
+                out.append({'kind': 'boot', 'v': ('#!/bin/bash\n' + 'x' * 2000)[:n_], 'how': rng.choice(['attr', 'set_properties'])})
+            elif k == 'tags':
+                out.append({'kind': 'tags', 'args': [gen_tag(rng) for _ in range(rng.choice([1, 2, 3]))]})
+            else:
+                mx = JD_DOC['UserData']
+                ln = rng.choice([5, mx - 1, mx, mx + 1])
+                out.append({'kind': 'user_data', 'v': ['a' * max(ln - 4, 0)] if rng.random() < 0.5 else '"' + 'a' * (ln - 2) + '"'})
+        return out
+
+    def corpus(self):
+        out = []
+        for cls in FIX:
+            for v in ('x', 'ok-name', 'bad\n'):
+                out.append({'kind': 'set', 'cls': cls, 'v': v})
+                out.append({'kind': 'rename', 'cls': cls, 'v': v})
+        out.append({'kind': 'update_labels', 'base': [['vlan', '5']], 'kws': [['vlan', '6\n']]})
+        out.append({'kind': 'update_labels', 'base': [], 'kws': [['vlan', ['6', '7']]]})
+        return out
+
+    def observe(self, case):
+        try:
+            t, el = self.fixture()
+        except Exception as e:
+            return {'err': 'Fixture' + type(e).__name__}
+        try:
+            return self.observe_on(case, t, el)
+        finally:
+            try:
+                t.graph_model.importer.delete_all_graphs()      # the in-memory store is a singleton
+            except Exception:
+                pass
+
+    def observe_on(self, case, t, el):
+        k = case['kind']
+        n = el['NodeSliver']
+        try:
+            if k == 'add':
+                from fim.user import ServiceType, ComponentModelType
+                if case['cls'] == 'NodeSliver':
+                    x = t.add_node(name=case['v'], site='S1')
+                elif case['cls'] == 'ComponentSliver':
+                    # a component model without interfaces: only the component's own name is validated
+                    x = n.add_component(name=case['v'], model_type=ComponentModelType.GPU_RTX6000)
+                else:
+                    x = t.add_network_service(name=case['v'], nstype=ServiceType.L2Bridge, interfaces=[])
+                return {'ok': x.get_property('name')}
+            if k in ('set', 'rename'):
+                x = el[case['cls']]
+                err = None
+                try:
+                    if k == 'set':
+                        x.name = case['v']
+                    else:
+                        x.rename(case['v'])
+                except Exception as e:
+                    err = type(e).__name__
+                return {'err_or_none': err, 'handle': x.name, 'graph': x.get_property('name')}
+            if k in ('update_labels', 'labels_assign'):
+                from fim.slivers.capacities_labels import Labels
+                if case['base']:
+                    n.labels = Labels(**{a: b for a, b in case['base']})
+                before = labels_fields_of(n.labels) if n.labels is not None else []
+                err = None
+                try:
+                    kws = {a: b for a, b in case['kws']}
+                    if k == 'update_labels':
+                        n.update_labels(**kws)
+                    elif case['how'] == 'attr':
+                        n.labels = Labels(**kws)
+                    elif case['how'] == 'set_property':
+                        n.set_property('labels', Labels(**kws))
+                    else:
+                        n.set_properties(labels=Labels(**kws))
+                except Exception as e:
+                    err = type(e).__name__
+                after = labels_fields_of(n.labels) if n.labels is not None else []
+                return {'err_or_none': err, 'before': before, 'after': after}
+            if k == 'boot':
+                if case['how'] == 'attr':
+                    n.boot_script = case['v']
+                else:
+                    n.set_properties(boot_script=case['v'])
+                return {'ok': n.boot_script}
+            if k == 'tags':
+                from fim.slivers.tags import Tags
+                n.set_properties(tags=Tags(*case['args']))
+                return {'ok': list(n.tags.tags)}
+            if k == 'user_data':
+                from fim.slivers.json_data import UserData
+                n.set_properties(user_data=UserData(case['v']))
+                return {'ok': n.get_property('user_data').json, 'again': True}
+        except Exception as e:
+            return {'err': type(e).__name__}
+
+    def to_coq(self, case, o):
+        k = case['kind']
+        if 'err' in o and (o['err'].startswith('Fixture') or k in ('set', 'rename', 'update_labels', 'labels_assign')):
+            return 'T_setname [] [] [] [1]%N [] None'      # an exception outside the call under test: never agrees
+        if k == 'add':
+            return 'T_misc (M_name %s %s %s)' % (cstr(case['cls']), c_sval(case['v']), c_result(o, cstr))
+        if k in ('set', 'rename'):
+            return 'T_setname %s %s %s %s %s %s' % (cstr(case['cls']), cstr(FIX[case['cls']]), cstr(case['v']),
+                                                    cstr(o['handle'] if isinstance(o['handle'], str) else '\x00?'),
+                                                    cstr(o['graph'] if isinstance(o['graph'], str) else '\x00?'),
+                                                    copt(o['err_or_none'], cexn))
+        if k in ('update_labels', 'labels_assign'):
+            if k == 'update_labels' and case['base']:
+                e = 'E_update %s %s' % (c_kvs(case['base']), c_kvs(case['kws']))
+            else:
+                e = 'E_ctor %s' % c_kvs(case['kws'])
+            if o['err_or_none']:
+                ob = 'LO_err %s' % cexn(o['err_or_none'])
+            else:
+                ob = 'LO_ok %s (Some %s)' % (c_kvs(o['after']), c_kvs(o['after']))
+            return 'T_labels (%s, %s)' % (e, ob)
+        m = Misc()
+        if k == 'boot':
+            return 'T_misc (%s)' % m.to_coq({'kind': 'boot', 'v': case['v']}, o)
+        if k == 'tags':
+            return 'T_misc (%s)' % m.to_coq({'kind': 'tags', 'args': case['args']}, o)
+        kind = 'jd_str' if isinstance(case['v'], str) else 'jd_obj'
+        return 'T_misc (%s)' % m.to_coq({'kind': kind, 'cls': 'UserData', 'v': case['v']}, o)
+
+    def oracle(self, case, o):
+        k = case['kind']
+        if 'err' in o and o['err'].startswith('Fixture'):
+            return 'fixture could not be built: ' + o['err']
+        if 'err' in o and k in ('set', 'rename', 'update_labels', 'labels_assign'):
+            return 'reading the element back after %s raised %s' % (k, o['err'])
+        m = Misc()
+        if k == 'add':
+            return m.oracle({'kind': 'name', 'cls': case['cls'], 'v': case['v']}, o)
+        if k in ('set', 'rename'):
+            good = doc_name(case['cls'], case['v'])
+            old = FIX[case['cls']]
+            if o['err_or_none'] is None and not good:
+                return '%s name %r outside the documented pattern stored by %s' % (case['cls'], case['v'], k)
+            if o['err_or_none'] is not None and good:
+                return 'in-domain %s name rejected by %s (%s)' % (case['cls'], k, o['err_or_none'])
+            if o['graph'] != (case['v'] if good else old):
+                return 'name in the model after %s is %r' % (k, o['graph'])
+            if o['handle'] != o['graph']:
+                return 'element handle holds the rejected name after a failed %s (model keeps the old name)' % k
+            return None
+        if k in ('update_labels', 'labels_assign'):
+            lab = LabelsStream()
+            e = 'update' if (k == 'update_labels' and case['base']) else 'ctor'
+            exp = lab.expected({'entry': e, 'base': case['base'], 'kws': case['kws']})
+            if o['err_or_none'] is None:
+                if exp[0] == 'reject':
+                    return 'labels stored through %s although %s' % (k, exp[1])
+                if o['after'] != exp[1]:
+                    return 'labels stored through %s differ from the values given' % k
+            else:
+                if exp[0] == 'ok':
+                    return 'in-domain labels rejected through %s (%s)' % (k, o['err_or_none'])
+                if o['after'] != o['before']:
+                    return 'labels changed by a rejected %s' % k
+            return None
+        if k == 'boot':
+            return m.oracle({'kind': 'boot', 'v': case['v']}, o)
+        if k == 'tags':
+            oo = dict(o)
+            if 'ok' in oo:
+                oo['recoded'] = oo['ok']
+            return m.oracle({'kind': 'tags', 'args': case['args']}, oo)
+        kind = 'jd_str' if isinstance(case['v'], str) else 'jd_obj'
+        return m.oracle({'kind': kind, 'cls': 'UserData', 'v': case['v']}, o)
+
+    def known_signature(self, case, o, why):
+        return 'topo:%s:%s' % (case['kind'], why or '')
+
+    def key(self, case, o):
+        return stable_hash(case)
+
+    def histogram(self, cases, obs):
+        h = {}
+        for c, o in zip(cases, obs):
+            r = o.get('err') or o.get('err_or_none') or 'ok'
+            k = '%s:%s' % (c['kind'], r)
+            h[k] = h.get(k, 0) + 1
+        return h
+
+    def describe(self, case, o):
+        return Misc().describe(case, o)
+
+    def shrink(self, case, failing):
+        case = json.loads(json.dumps(case))
+        if case['kind'] in ('set', 'rename', 'add') and isinstance(case.get('v'), str):
+            def f(t):
+                c2 = dict(case)
+                c2['v'] = t
+                return failing(c2)
+            case['v'] = shrink_string(case['v'], f)
+        return case
+
+
 class C16(Check):
     pid = 'C16'
     translators = ['gen_caps', 'gen_labels']
     model_targets = ['Model/Labels16.vo']
-    streams = [Prims(), LabelsStream(), Misc()]
+    streams = [Prims(), LabelsStream(), Misc(), Topo()]
     trusted_base = [
         'Coq 8.16.1 kernel (coqc), vm_compute for the correspondence evaluation; no native_compute',
         'Print Assumptions of every C16 theorem: Closed under the global context (no axioms)',
@@ -1054,6 +1308,15 @@ class C16(Check):
         'formats restated by hand in harness/c16.py are the search oracle, not part of the proof',
         'asserts are assumed enabled (python -O would remove the Capacities and boot-script checks)',
     ]
+    def refuted_witnesses(self):
+        def handle_name():
+            st = Topo()
+            case = {'kind': 'set', 'cls': 'NodeSliver', 'v': 'x'}
+            o = st.observe(case)
+            still = o.get('err_or_none') is not None and o.get('handle') == 'x' and o.get('graph') == FIX['NodeSliver']
+            return still, {'case': case, 'impl': o}
+        return [('C16_handle_name_refuted', handle_name)]
+
     assumptions = [
         'label values are str, list of str, None or another scalar (a list with non-string elements is outside the modelled domain)',
         'keyword names are either Labels fields or names that are not attributes of the object at all',
